@@ -187,7 +187,7 @@ def cfgs_of(job: dict) -> list[dict]:
 
 def run_job(job: dict) -> JobResult:
     res = JobResult()
-    bound = 3 if job["size"] <= 40000 or (job["tier"] == "thorough" and job["size"] <= 100000) else 2
+    bound = 3 if job["size"] <= 40000 else 2
     for cfg in cfgs_of(job):
         found: dict[str, tuple[Ctx, dict]] = {}
 
